@@ -649,13 +649,14 @@ tail:
                     cap = constant;
                     break;
                 case JANET_STRUCT:
-                    if (s->captures->count) {
+                    /* Look up the last capture made by the sub-pattern (not one made before it) */
+                    if (s->captures->count > cs.cap) {
                         cap = janet_struct_get(janet_unwrap_struct(constant),
                                                s->captures->data[s->captures->count - 1]);
                     }
                     break;
                 case JANET_TABLE:
-                    if (s->captures->count) {
+                    if (s->captures->count > cs.cap) {
                         cap = janet_table_get(janet_unwrap_table(constant),
                                               s->captures->data[s->captures->count - 1]);
                     }
